@@ -23,7 +23,17 @@ Inductive fsop : Type :=
 | Close (t : fname)
 | Rename (t p : fname)              (* rename(2) t -> p, same directory *)
 | Remove (t : fname)                (* unlink(2) *)
-| OpenTrunc (p : fname).            (* open O_WRONLY|O_CREAT|O_TRUNC (what ioutil.WriteFile does) *)
+| OpenTrunc (p : fname)             (* open O_WRONLY|O_CREAT|O_TRUNC (what ioutil.WriteFile does) *)
+(* The remaining operations are NOT performed by the code under study.  They exist so that an
+   OBSERVED system-call sequence that deviates from put_ops (a regression) can still be given
+   its crash states, which the harness then materialises and the C12 monitor judges. *)
+| OpenWrite (p : fname)             (* open an existing file for writing, no truncation, offset 0 *)
+| OpenCreate (p : fname)            (* open O_CREAT without O_EXCL/O_TRUNC: created empty if absent, else kept *)
+| WriteAt (p : fname) (off : N) (b : bytes).  (* write(2)/pwrite(2) of b at offset off, overwriting in place *)
+
+(* content after writing b at offset off (a hole is filled with zero bytes) *)
+Definition overwrite (c : bytes) (off : N) (b : bytes) : bytes :=
+  take off c ++ rep 0 (off - len c) ++ b ++ drop (off + len b) c.
 
 Definition apply_op (fs : fsys) (o : fsop) : fsys :=
   match o with
@@ -34,6 +44,9 @@ Definition apply_op (fs : fsys) (o : fsop) : fsys :=
   | Rename t p => match alookup t fs with Some c => aset p c (aremove t fs) | None => fs end
   | Remove t => aremove t fs
   | OpenTrunc p => aset p [] fs
+  | OpenWrite _ => fs
+  | OpenCreate p => match alookup p fs with Some _ => fs | None => aset p [] fs end
+  | WriteAt p off b => match alookup p fs with Some c => aset p (overwrite c off b) fs | None => fs end
   end.
 
 Definition run_ops (fs : fsys) (ops : list fsop) : fsys := fold_left apply_op ops fs.
@@ -46,13 +59,14 @@ Fixpoint prefixes (b : bytes) : list bytes :=
   end.
 
 (* the file-system states a crash can leave behind: before the first operation, after each
-   operation, and — inside a Write — after every partial transfer of 0..len bytes *)
+   operation, and — inside a Write or WriteAt — after every partial transfer of 0..len bytes *)
 Fixpoint crash_states (fs : fsys) (ops : list fsop) : list fsys :=
   match ops with
   | [] => [fs]
   | o :: ops' =>
     fs :: (match o with
            | Write t b => map (fun pre => apply_op fs (Write t pre)) (prefixes b)
+           | WriteAt t off b => map (fun pre => apply_op fs (WriteAt t off pre)) (prefixes b)
            | _ => []
            end) ++ crash_states (apply_op fs o) ops'
   end.
@@ -63,6 +77,7 @@ Definition crash_state_at (fs : fsys) (ops : list fsop) (i : nat) (k : N) : fsys
   let fs_i := run_ops fs (firstn i ops) in
   match nth_error ops i with
   | Some (Write t b) => apply_op fs_i (Write t (take k b))
+  | Some (WriteAt t off b) => apply_op fs_i (WriteAt t off (take k b))
   | _ => fs_i
   end.
 
